@@ -142,7 +142,7 @@ def display(g):
         return g.word(ALNUM, 1, 5) + " " + g.word(TOKEN, 1, 5) + " "
     if k == 4:
         return '"' + esc_word(g, ALNUM + " .;=:@%()'", 0, 12, 0.2) + '" '
-    return '"' + g.pick(["50% off", "J. O'Hara", "a;b=c", "%s%d%n", "éè", "Bob"]) + '"' + g.pick(["", " "])
+    return '"' + g.pick(["50% off", "J. O'Hara", "a;b=c", "%s%d%n", "éè", "Bob", "Lab C:\\\\", "a\\\\", "x \\\"y\\\" \\\\"]) + '"' + g.pick(["", " "])
 
 def gen_params(g, maxn=5, tag=None):
     ps = []
